@@ -2,6 +2,7 @@
 from __future__ import annotations
 
 import ast
+import itertools
 from typing import Dict, List, Optional, Set, Tuple
 
 from ..flow import always_exits, always_raises
@@ -300,7 +301,78 @@ def rule_condspec(ctx, prop: str) -> RuleResult:
          "nm not in post_FV",
          "fission must not hide an allocation from a later use"),
     ]
+    PA_ = "src/exo/backend/prec_analysis.py"
+    NE_ = "src/exo/rewrite/new_eff.py"
+    # rows with explicit local names (checked modulo renaming of those locals); mode `cover`:
+    # the guarded action (text `must`) has to happen whenever the spec holds (spec => test)
+    table2 = [
+        (("C15",), PA_, "PrecisionAnalysis.map_e", "cover", "is_numeric", "typ.is_numeric()", ("typ",), "get_type(",
+         "the precision of every numeric read is re-derived from the declaration of the buffer it names; trusting the stored annotation "
+         "lets a stale one through (a window alias of a buffer whose precision was changed): mixed-precision arithmetic and mistyped "
+         "window arguments reach the C compiler"),
+        (("C10", "C01"), NE_, "stmts_effs", "accept", "ReadConfig", "fa.type.is_numeric() and isinstance(a, LoopIR.ReadConfig)", ("fa", "a"), None,
+         "only a numeric (by-reference) configuration argument may be skipped when collecting the reads of a call; a control-typed "
+         "`Cfg.f` argument is a read of the field — without it delete_config/write_config/call_eqv consider the field unread"),
+    ]
     n_rows = 0
+    for props, file, qn, mode, marker, spec_src, locs, must, why in table2:
+        if prop not in props:
+            continue
+        n_rows += 1
+        f = ix.func(file, qn)
+        res.analysed.append(f"{file}:{qn}")
+        cands = [n for n in f.body_nodes() if isinstance(n, ast.If) and marker in ast.unparse(n.test)]
+        if must is not None:
+            cands = [n for n in cands if any(must in ast.unparse(st) for st in n.body)]
+            if not cands:
+                res.instances += 1
+                present = any(must in ast.unparse(st) for st in f.node.body)
+                res.ob(present)
+                res.sample(f"{qn}: `{must}…` unconditional: {present}")
+                if not present:
+                    res.add(Finding("CONDSPEC", file, f.lineno, qn, marker, f"`{must}…)` is gone from {qn}: {why}"))
+                continue
+        elif not cands:
+            res.instances += 1
+            res.ob(False)
+            res.add(Finding("CONDSPEC", file, f.lineno, qn, marker, f"no condition mentioning `{marker}` is left in {qn}: {why}"))
+            continue
+        spec_ast = ast.parse(spec_src, mode="eval").body
+        fixed = {x.id for x in ast.walk(spec_ast) if isinstance(x, ast.Name)} - set(locs)
+        for n in cands:
+            names = sorted({x.id for x in ast.walk(n.test) if isinstance(x, ast.Name)} - fixed)
+            best = None  # (shared atoms, ok, cex, spec text)
+            for perm in itertools.permutations(names, min(len(locs), len(names))):
+                ren = dict(zip(locs, perm))
+
+                class Ren(ast.NodeTransformer):
+                    def visit_Name(self, node):
+                        return ast.copy_location(ast.Name(id=ren.get(node.id, node.id), ctx=node.ctx), node)
+
+                sp_ast = Ren().visit(ast.parse(spec_src, mode="eval").body)
+                sp = to_form(sp_ast)
+                test = to_form(n.test)
+                shared = len(atoms(sp) & atoms(test))
+                if not shared:
+                    continue
+                if mode == "cover":
+                    ok, cex = implies(sp, test)
+                else:
+                    ok, cex = implies(("not", test) if mode == "reject" else test, sp)
+                cand = (ok, shared, cex, ast.unparse(sp_ast))
+                if best is None or (cand[0], cand[1]) > (best[0], best[1]):
+                    best = cand
+            if best is None:
+                continue  # another test that merely mentions the marker
+            ok, shared, cex, sp_txt = best
+            res.instances += 1
+            res.nontrivial += 1
+            res.ob(ok)
+            rel = "is implied by" if mode == "cover" else "implies"
+            res.sample(f"{qn}: `{ast.unparse(n.test)[:90]}` {rel} `{sp_txt[:80]}`: {ok}")
+            if not ok:
+                shown = ", ".join(f"{k}={v}" for k, v in sorted(cex.items()))
+                res.add(Finding("CONDSPEC", file, n.lineno, qn, marker, f"{why} (counter-assignment: {shown})"))
     for props, file, qn, mode, marker, spec_src, why in table:
         if prop not in props:
             continue
